@@ -193,3 +193,50 @@ package arvados
 //@   calls filenode.appendSegment#1: requires istype($0, storedSegment) && unbox($0, storedSegment).length > 0 && unbox($0, storedSegment).offset >= 0 && unbox($0, storedSegment).offset + unbox($0, storedSegment).length <= unbox($0, storedSegment).size
 //@   calls filenode.appendSegment#1: requires pos + int64(unbox($0, storedSegment).offset) == max(offset, pos) && pos + int64(unbox($0, storedSegment).offset) + int64(unbox($0, storedSegment).length) == min(offset + length, next)
 //@   calls filenode.appendSegment#1: requires unbox($0, storedSegment).locator == seg.locator && unbox($0, storedSegment).size == seg.size && next == pos + int64(seg.length)
+
+// ---------------------- C09: a buffered segment is replaced only after its
+// block was stored, and only if it is still the same unmodified segment
+//@ iface fsBackend.PutB
+//@   modifies nothing
+//@ iface FileSystem.PutB
+//@   modifies nothing
+//@ func filenode.FS trusted pure
+//@   modifies nothing
+//@ func fileSystem.throttle trusted
+//@   modifies nothing
+//@ func throttle.Acquire trusted
+//@   modifies nothing
+//@ func throttle.Release trusted
+//@   modifies nothing
+
+// Background flush of one full block (goroutine body of pruneMemSegments,
+// verified as a sequential function).
+//@ func filenode.pruneMemSegments$1 property C09
+//@   ghost perr error = nil
+//@   ghost loc string = ""
+//@   ghost released bool = false
+//@   ghost replaced bool = false
+//@   calls FileSystem.PutB#1: requires $0 == buf
+//@   calls FileSystem.PutB#1: set perr = $r2
+//@   calls FileSystem.PutB#1: set loc = $r0
+//@   calls throttle.Release#1: set released = true
+//@   calls filenode.FS#2: requires perr == nil && seg.flushing == done && len(fn.segments) > idx && fn.segments[idx] == iface(seg) && len(seg.buf) == len(buf)
+//@   calls filenode.FS#2: set replaced = true
+//@   ensures released
+//@   ensures replaced ==> istype(fn.segments[idx], storedSegment) && unbox(fn.segments[idx], storedSegment).locator == loc && unbox(fn.segments[idx], storedSegment).size == len(buf) && unbox(fn.segments[idx], storedSegment).offset == 0 && unbox(fn.segments[idx], storedSegment).length == len(buf)
+
+// Goroutine body of commitBlock: segments are replaced only after PutB
+// succeeded, with the locator PutB returned, the block size, the segment's
+// offset in the block and its length; the throttle slot is released on every
+// path; in async mode only after re-validating under the file lock.
+//@ func dirnode.commitBlock$1 property C09 safety -bounds
+//@   ghost perr error = nil
+//@   ghost loc string = ""
+//@   ghost released bool = false
+//@   calls fsBackend.PutB#1: requires $0 == block
+//@   calls fsBackend.PutB#1: set perr = $r2
+//@   calls fsBackend.PutB#1: set loc = $r0
+//@   calls throttle.Release#1: set released = true
+//@   ensures released
+//@   loop 1: invariant perr == nil && released
+//@   calls atomic.AddInt64#1: requires perr == nil && istype(ref.fn.segments[ref.idx], storedSegment) && unbox(ref.fn.segments[ref.idx], storedSegment).locator == loc && unbox(ref.fn.segments[ref.idx], storedSegment).size == blocksize && unbox(ref.fn.segments[ref.idx], storedSegment).offset == offsets[idx] && unbox(ref.fn.segments[ref.idx], storedSegment).length == len(data)
